@@ -113,11 +113,11 @@ def gen_case(rng, d, feat):
 def run(ctx):
     impl.load()
     rng = ctx.rng("c02")
-    ctx.rule = ("generated programs over instructions, data, strings, reserved blocks (also with sizes known only after later "
+    ctx.rule = ("generated programs over instructions, data (also '.byte' / '.word' / '.dword' without operands), strings, reserved blocks (also with sizes known only after later "
                 "definitions), alignment, location-counter skips, repeats (half of them with bodies whose size depends on their address: odd-sized data next to '.even'), inserted binaries, included files, 1-3 linked files, random "
                 "even link bases; plus the 21 practice programs. For each: hook-trace invariant, announced sizes, whole-program model. "
                 "distinct = distinct program texts; non-trivial = at least 5 traced statements")
-    feat = {"forward_sizes": True, "export": 0.15, "repeat_odd": True}
+    feat = {"forward_sizes": True, "export": 0.15, "repeat_odd": True, "bare_data": True}
     n = 1500 if ctx.thorough else 250
     reqs, jobs = [], []
     for _ in range(n):
